@@ -823,6 +823,62 @@ fn run_stress(v: &Value, out: &mut Vec<String>) {
     stage_reports(out, &pids);
 }
 
+// ------------------------------------------------------------------ capture() beside a thread that keeps launching
+/// The calling thread runs pipelines through capture() while another thread keeps starting unrelated, longer-living
+/// programs (the kernel picks the interleavings).  A capture must return once its own commands are gone: it never has
+/// to wait for somebody else's process.  Reported: the longest capture.
+fn run_capstress(v: &Value, out: &mut Vec<String>) {
+    use std::sync::atomic::{AtomicBool, Ordering};
+    use std::sync::Arc;
+    use subprocess::PopenConfig;
+    let rounds = v["rounds"].as_u64().unwrap_or(12) as usize;
+    let nst = v["n"].as_u64().unwrap_or(4) as usize;
+    out.push(json!({"e":"pre","fds":fd_table()}).to_string());
+    let stop = Arc::new(AtomicBool::new(false));
+    let stop2 = stop.clone();
+    let vch = vchild();
+    let b = std::thread::spawn(move || {
+        let mut held: Vec<Popen> = vec![];
+        while !stop2.load(Ordering::SeqCst) {
+            // (the bystanders are left alone until the end: each lives 1.5 s)
+            if held.len() < 400 {
+                if let Ok(p) = Popen::create(&[vch.as_str(), "@script", "s1500", "x0"], PopenConfig::default()) {
+                    held.push(p);
+                }
+            }
+            std::thread::sleep(std::time::Duration::from_micros(300));
+        }
+        for mut q in held.drain(..) {
+            let _ = q.kill();
+            let _ = q.wait();
+        }
+    });
+    let mut max_us: u64 = 0;
+    let mut ok = true;
+    let data = input_lines(3);
+    for _ in 0..rounds {
+        let mut stages: Vec<Exec> = (0..nst)
+            .map(|i| Exec::cmd(vchild()).arg("@stage").arg(format!("c{}", i)).arg("0").arg(format!("e{}", i)))
+            .collect();
+        let mut it = stages.drain(..);
+        let mut p = it.next().unwrap() | it.next().unwrap();
+        for e in it {
+            p = p | e;
+        }
+        let t0 = std::time::Instant::now();
+        let r = p.stdin(data.clone()).capture();
+        let us = t0.elapsed().as_micros() as u64;
+        max_us = max_us.max(us);
+        ok &= r.map(|c| c.exit_status.success()).unwrap_or(false);
+    }
+    stop.store(true, Ordering::SeqCst);
+    let _ = b.join();
+    // (the stages' reports are not looked at here)
+    let _ = fs::remove_dir_all(vr());
+    let _ = fs::create_dir_all(vr());
+    out.push(json!({"e":"hresult","ok":ok,"panicked":false,"max_us":max_us}).to_string());
+}
+
 // ------------------------------------------------------------------ two threads launching concurrently (C08)
 fn run_race(v: &Value, out: &mut Vec<String>) {
     use std::sync::atomic::Ordering;
@@ -955,6 +1011,7 @@ fn run_one_body(v: &Value, out: &mut Vec<String>) {
         }
         "handle" => run_handle(v, out),
         "stress" => run_stress(v, out),
+        "capstress" => run_capstress(v, out),
         "builder" => run_builder(v, out),
         "race" => run_race(v, out),
         x => panic!("bad kind {}", x),
